@@ -731,7 +731,12 @@ pub fn gen(r: &mut Rng, pool: &Pool, opts: &GenOpts) -> Program {
                 vec![Node::Lines(vec![format!("{}:", n), "    nop".to_string()]), Node::Lines(vec![format!("{}:", n.to_uppercase())])]
             }
             "error-directive" => vec![Node::Lines(vec![g.msg("error")])],
-            "unknown-device" => vec![Node::Lines(vec![".device ATnothing99".to_string()])],
+            // not in the device table: plainly unknown, or a real part whose name has one or
+            // two table entries as prefixes (ATmega168P: ATmega16, ATmega168)
+            "unknown-device" => {
+                let names = ["ATnothing99", "ATmega168P", "ATmega88PA", "ATmega8515L", "ATtiny13V", "ATmega328", "ATmega1284P", "ATtiny2313V", "ATmega32U4", "atmega48", "ATmega16A", "AT90S2313A", "ATtiny24V"];
+                vec![Node::Lines(vec![format!(".device {}", names[g.r.usize(names.len())])])]
+            }
             "second-device" => vec![Node::Lines(vec![".device ATmega48".to_string()]), Node::Lines(vec![".device ATtiny13".to_string()])],
             "device-forbids-op" => vec![Node::Lines(vec![".device ATtiny13".to_string(), "    mul r1, r2".to_string()])],
             "flash-overflow" => vec![Node::Lines(vec![".device ATtiny13".to_string(), ".org 0x1ff".to_string(), "    nop".to_string(), "    nop".to_string()])],
